@@ -88,6 +88,11 @@ type CompCase struct {
 	B         int      `json:"b"`
 	Rounds    int      `json:"rounds"`            // how often TriggerCompaction is called
 	Tracked   []int    `json:"tracked,omitempty"` // key indexes whose deletion the tombstone tracker knows
+	// FaultLimit > 0: the compaction calls run under a process file-size limit of
+	// this many bytes (an output file cannot grow beyond it: the compaction
+	// fails the way it fails on a full disk). Whatever the calls return, the
+	// content must be preserved.
+	FaultLimit int64 `json:"fault_limit,omitempty"`
 }
 
 func valOf(e Ent) []byte {
@@ -215,6 +220,11 @@ func runComp(c *CompCase) (*failure, []string, bool) {
 	}
 	before, _ := filepath.Glob(filepath.Join(cfg.SSTDir, "*.sst"))
 	var cerr error
+	if c.FaultLimit > 0 {
+		if err := drive.SetFsizeLimit(uint64(c.FaultLimit)); err != nil {
+			panic(err)
+		}
+	}
 	switch c.Action {
 	case "range":
 		var a, b []byte
@@ -230,16 +240,27 @@ func runComp(c *CompCase) (*failure, []string, bool) {
 			cerr = coord.TriggerCompaction()
 		}
 	}
+	drive.LiftFsizeLimit()
+	// what the background worker does after every cycle, failed or not
+	_ = coord.CleanupObsoleteFiles()
 	_ = coord.Stop()
 	after, _ := filepath.Glob(filepath.Join(cfg.SSTDir, "*.sst"))
 	if cerr != nil {
 		ev.R().Count("compaction_errors", 1)
-		ev.R().Note("compaction error: " + cerr.Error())
+		if c.FaultLimit == 0 {
+			ev.R().Note("compaction error: " + cerr.Error())
+		}
 	}
 	changed := strings.Join(before, ",") != strings.Join(after, ",")
 	classes := []string{"kind:component", "action:" + c.Action}
 	if changed {
 		classes = append(classes, "comp:files_changed")
+	}
+	if c.FaultLimit > 0 {
+		classes = append(classes, "comp:under_file_size_limit")
+		if cerr != nil {
+			classes = append(classes, "comp:compaction_failed_under_limit")
+		}
 	}
 	if d := checkOutputs(cfg.SSTDir); d != "" {
 		return &failure{"comp:output-not-sorted@" + c.Action, d}, classes, changed
@@ -367,6 +388,10 @@ func genComp(t *rapid.T) CompCase {
 				c.Tracked = append(c.Tracked, k)
 			}
 		}
+	}
+	if rapid.IntRange(0, 5).Draw(t, "fault") == 0 {
+		// small enough that an output of a few entries already exceeds it
+		c.FaultLimit = rapid.Int64Range(64, 4096).Draw(t, "fault_limit")
 	}
 	return c
 }
